@@ -359,3 +359,89 @@ def rule_exhaust(ctx, R):
         R.inst(b.fn, "auto-append#%d" % k, {"at": b.loc(a), "guarded_by_last_id_vs_max_test": ok})
         if not ok:
             R.finding(b.fn, "auto-append:no-exhaustion-test", "XADD * appends to an existing stream (line %d) without testing whether the last ID is already the highest possible one: the generated ID is then not greater than the last" % b.bb_line(a), b.loc(a))
+
+
+BOUND_FIELDS = ("storage::consumer_groups::PendingEntryList.min_pending_id", "storage::consumer_groups::PendingEntryList.max_pending_id")
+BY_ID_F = "storage::consumer_groups::PendingEntryList.entries_by_id"
+
+
+def rule_cg_bounds(ctx, R):
+    """XPENDING's ID bounds are a cache of the pending index: every value stored into
+    min_pending_id / max_pending_id is (a) computed from entries_by_id (keys().min()/max(),
+    first/last key), or (b) the result of min/max with the old bound, or (c) stored under a
+    comparison of the new ID with the old bound; and every function that inserts into or removes
+    from entries_by_id recomputes / adjusts the bounds on every path to its exit."""
+    nst = 0
+    writers = set()
+    for fn, b in sorted(ctx.prog.bodies.items()):
+        if not fn.startswith(PEL) or "::tests::" in fn or b.kind == "Closure":
+            continue
+        cmp_regs = set()
+        for i, t in b.calls():
+            if re.search(r"storage::stream::StreamId as std::cmp::(PartialOrd|Ord)>::(lt|le|gt|ge|cmp|partial_cmp)$|std::option::Option<storage::stream::StreamId> as std::cmp::PartialOrd>::(lt|le|gt|ge)$|Option::<storage::stream::StreamId>::(is_none_or|is_some_and|map_or)", t["f"] or "") and t["t"] >= 0:
+                sw = shared._follow_to_switch(b, t["t"], t["d"]["l"])
+                if sw:
+                    for tgt in [tb for _, tb in sw[1]["ts"]] + [sw[1]["o"]]:
+                        cmp_regs |= cfg.edge_dom_set(b, sw[0], tgt)
+        for x, bb in enumerate(b.bbs):
+            if bb.get("cleanup"):
+                continue
+            for st in bb["s"]:
+                if st["k"] != "=":
+                    continue
+                fs = [e["f"] for e in st["l"]["p"] if isinstance(e, dict) and "f" in e]
+                if not fs or fs[-1] not in BOUND_FIELDS:
+                    continue
+                nst += 1
+                writers.add(fn)
+                r = st["r"]
+                ok = False; why = "?"
+                if r["k"] == "agg" and r["a"].endswith("::None") and fn.endswith("::new"):
+                    ok = True; why = "constructor"
+                else:
+                    ops = [r["o"]] if r["k"] == "use" else (r["o"] if r["k"] == "agg" else [])
+                    for o in ops:
+                        if op_is_const(o):
+                            continue
+                        P = prov.operand_origins(b, o, deep=True)
+                        if BY_ID_F in P.fields:
+                            ok = True; why = "computed from the index"
+                        elif P.has_call(r"std::cmp::(min|max)::<|as std::cmp::Ord>::(min|max)$"):
+                            ok = True; why = "min/max with the old bound"
+                    if not ok and x in cmp_regs:
+                        ok = True; why = "under a comparison with the old bound"
+                R.inst(fn, "bound-store:" + fs[-1].rsplit(".", 1)[-1], {"function": fn, "line": st.get("line"), "justified": ok, "why": why})
+                if not ok:
+                    R.finding(fn, "bound-store:%s:not-derived-from-index" % fs[-1].rsplit(".", 1)[-1],
+                              "%s stores a value into %s (line %s) that is neither computed from the pending index nor compared with the old bound: after deliveries out of ID order (XGROUP SETID backwards, XCLAIM) XPENDING's bounds differ from the actual pending set" % (fn.split("::")[-1], fs[-1].rsplit(".", 1)[-1], st.get("line")), "%s:%s" % (b.file, st.get("line")))
+    R.floor("bound_stores", nst)
+    # every index mutation is followed by a bounds update on every path
+    nm = 0
+    for fn, b in sorted(ctx.prog.bodies.items()):
+        if not fn.startswith(PEL) or "::tests::" in fn or b.kind == "Closure":
+            continue
+        muts = recv_calls(b, BY_ID_F, r"BTreeMap::<.*>::(insert|remove|clear|retain|pop_first|pop_last|split_off)(::<.*>)?$")
+        if not muts:
+            continue
+        upd = set()
+        for i, t in b.calls():
+            if callee(t) in writers:
+                upd.add(i)
+        for x, bb in enumerate(b.bbs):
+            for st in bb["s"]:
+                if st["k"] == "=" and [e for e in st["l"]["p"] if isinstance(e, dict) and e.get("f") in BOUND_FIELDS]:
+                    upd.add(x)
+        for k, i in enumerate(muts):
+            nm += 1
+            # removal that found nothing needs no update: follow the Some edge of remove
+            starts = [i]
+            t = b.term(i)
+            if re.search(r"::remove(::<.*>)?$", t["f"] or ""):
+                rs = shared.result_switch(b, i)
+                if rs and rs["ok"]:
+                    starts = rs["ok"]
+            p = cfg.path_avoiding(b, starts, set(b.exits()), upd)
+            R.inst(fn, "index-mutation#%d" % k, {"function": fn, "at": b.loc(i), "path_without_bounds_update": p is not None})
+            if p is not None:
+                R.finding(fn, "index-mutation:bounds-not-updated", "%s changes the pending index (line %d) and can return without updating the cached ID bounds" % (fn.split("::")[-1], b.bb_line(i)), b.loc(i))
+    R.floor("pending_index_mutations", nm)
